@@ -67,6 +67,12 @@ def run():
             samples[e["ev"]] = purefn.trim(dict(e, cases=e["cases"][:2]), 8)
     thorough = core.tier() == "thorough"
     n = sum(per.values())
+    # Apalache (SMT): accuracy, monotonicity and periodicity of the very conversion operators the wire modules use,
+    # for EVERY frequency 137..1020 MHz on the 1 Hz grid
+    lem = core.apalache_check("PllApa.tla", "Inv", PID)
+    if not lem["ok"]:
+        core.log(lem["out"][-3000:])
+        raise core.ToolError("PllApa.tla: Apalache did not prove the conversion lemma - the specification itself is wrong")
     cov = {
         "states": states, "transitions": gen, "traces_validated_against_impl": accepted,
         "evaluations": n, "distinct_nontrivial": len(distinct),
@@ -76,6 +82,9 @@ def run():
                 "(chip, band, raw status bytes) -> reported RSSI/SNR. distinct = distinct such tuples (every one is a separate point "
                 "of the function under test, none is trivial)",
         "cases_per_kind": per, "known_deviation_matches": known,
+        "symbolic_lemma": {"tool": "apalache-mc 0.58 (SMT)", "module": "PllApa.tla (PllCore.tla operators, the ones Sx126xWire / Sx127xWire use)",
+                           "invariant": "nearest synthesiser step (SX126x < 1 Hz, SX127x < 62 Hz), monotone, periodic word(f+15625) = word(f) + 2^14 / 2^8, fits the register",
+                           "domain": "every f in 137000000..1020000000 Hz, symbolically", "wall_s": round(lem["wall"], 1)},
         "samples": list(samples.values())[:4],
         "exhaustive": False,
         "explanation": ("frequency: every 100 Hz of the LoRaWAN bands, stride 9973 Hz over 137-1020 MHz, five full 15625 Hz periods of the "
@@ -92,7 +101,8 @@ def run():
         "SetTxParams step below a row), symbol timeout = mantissa*2^(2*exp+1), RSSI = -raw/2, SNR = raw/4; SX127x Frf = word*32e6/2^19, "
         "Pout formulas of RegPaConfig/RegPaDac, 10-bit SymbTimeout, RSSI offsets -157/-164/-139 with the 16/15 slope",
         "the full 1 Hz sweep 137-1020 MHz (8.8e8 values) is not enumerated: the SX126x conversion is checked on whole periods plus the "
-        "periodicity relation word(f+15625) = word(f)+16384 at random bases; the rest follows from that algebraic argument",
+        "periodicity relation word(f+15625) = word(f)+16384 at random bases; that the specification's conversion is periodic, monotone and "
+        "nearest-step for every frequency is proved by Apalache (PllApa.tla); that the driver computes the specification's word is what the trace check samples",
         "SX127x RSSI with negative SNR: the data sheet omits the 16/15 slope correction in that branch, SWL2001/LoRaMac-node apply it; "
         "either reading is accepted within 1 dB, with branch and SNR term judged on the reported whole-dB SNR",
         "the LoRaWAN adapter's symbol count is observed through the timeout registers the drivers program (SX1276: exact up to 1023 "
